@@ -312,5 +312,9 @@ func runR_C18(c *Ctx) {
 	}
 	c.Rep.analysed("mem_residuals", n)
 	runG9(c, "derive.IsComparable")
+	// at-most-once per Equal class relies on the bucket key being a function of the value: the hash plugin's
+	// value-only / ordered-traversal rules and the sort plugin's order rules are part of this property's mechanism
+	hashCoreRules(c, false)
+	sortLessRules(c)
 	c.Rep.floor("R15", 30)
 }
